@@ -17,6 +17,8 @@ def vop(op, i):
     k = op['op']
     if k == 'gwApprove':
         return '(VGateway %s)' % gwcases.gop({'op': 'approve', 'caller': op['caller'], 'now': op['now'], 'messages': op['messages'], 'proof': op['proof']}, i['owner'])
+    if k == 'gwValidate':      # somebody calls the gateway's validateMessage directly
+        return '(VGateway %s)' % gwcases.gop({'op': 'validate', 'caller': op['caller'], 'now': op['now'], 'chain': op['chain'], 'id': op['id'], 'src': op['src'], 'ph': op['ph']}, i['owner'])
     if k == 'deliver':
         return '(VDeliver %s %d %s [%s])' % (H(i['gov']), op['id'], 'true' if op['ok'] else 'false', '; '.join(H(x) for x in op['rets']))
     if k == 'callback':
